@@ -112,7 +112,7 @@ def run_tlc(module, cfg, workdir, workers=8, timeout=900, env=None, extra=()):
     """Runs TLC on spec/<module>.tla with the given cfg file. Returns (rc, output)."""
     os.makedirs(workdir, exist_ok=True)
     meta = os.path.join(workdir, "tlc-meta-%d-%d" % (os.getpid(), random.randrange(1 << 30)))
-    cmd = ["timeout", str(timeout), "java", "-XX:+UseParallelGC", "-Xss1g",
+    cmd = ["timeout", str(timeout), "java", "-XX:+UseParallelGC", "-Xss1g", "-Xmx%dg" % (5 if workers == 1 else 16),
            "-cp", TLA_JAR + ":/opt/veriftools/tla/CommunityModules-deps.jar", "tlc2.TLC",
            "-workers", str(workers), "-metadir", meta, "-cleanup", "-noGenerateSpecTE",
            "-config", cfg] + list(extra) + [os.path.join(SPEC, module + ".tla")]
@@ -354,10 +354,45 @@ def validate_one(trace_path, workdir, module="TraceCore", timeout=1200, cfg_cons
     return res
 
 
+MAX_PIECE_LINES = 25000
+
+
+def split_trace(path, max_lines=MAX_PIECE_LINES):
+    """TLC holds a whole trace file in memory (about 50 kB per event): big files are cut at history
+    boundaries (`reset` events) into pieces of at most max_lines lines (a longer single history stays whole)."""
+    with open(path) as f:
+        lines = f.readlines()
+    if len(lines) <= max_lines:
+        return [path]
+    starts = [i for i, line in enumerate(lines) if '"k":"reset"' in line[:400]]
+    if not starts or starts[0] != 0:
+        starts = [0] + starts
+    bounds = starts + [len(lines)]
+    pieces, cur_start = [], 0
+    for h in range(len(starts)):
+        end = bounds[h + 1]
+        if end - cur_start > max_lines and starts[h] > cur_start:
+            pieces.append((cur_start, starts[h]))
+            cur_start = starts[h]
+    pieces.append((cur_start, len(lines)))
+    out = []
+    base = path[:-len(".ndjson")] if path.endswith(".ndjson") else path
+    for k, (x, y) in enumerate(pieces):
+        pp = "%s.p%02d.ndjson" % (base, k)
+        with open(pp, "w") as f:
+            f.writelines(lines[x:y])
+        out.append(pp)
+    return out
+
+
 def validate_traces(paths, workdir, parallel=8):
     results = []
+    pieces = []
+    for p in paths:
+        if os.path.getsize(p) > 0:
+            pieces += split_trace(p)
     with concurrent.futures.ThreadPoolExecutor(max_workers=parallel) as ex:
-        futs = [ex.submit(validate_one, p, workdir) for p in paths if os.path.getsize(p) > 0]
+        futs = [ex.submit(validate_one, p, workdir) for p in pieces]
         for f in futs:
             results.append(f.result())
     return results
@@ -478,7 +513,7 @@ def turns_mc(workdir, name, ops, switches=None, invariants=("InvCore", "InvRest"
     with open(cfg, "w") as f:
         f.write("\n".join(lines) + "\n")
     meta = os.path.join(workdir, "tlc-meta-%s-%d" % (name, os.getpid()))
-    cmd = ["timeout", str(timeout), "java", "-XX:+UseParallelGC", "-Xss64m", "-DTLA-Library=" + SPEC,
+    cmd = ["timeout", str(timeout), "java", "-XX:+UseParallelGC", "-Xss64m", "-Xmx16g", "-DTLA-Library=" + SPEC,
            "-cp", TLA_JAR + ":/opt/veriftools/tla/CommunityModules-deps.jar", "tlc2.TLC",
            "-workers", str(workers), "-metadir", meta, "-cleanup", "-noGenerateSpecTE",
            "-config", cfg, os.path.join(workdir, mod + ".tla")]
@@ -529,7 +564,7 @@ def actors_mc(workdir, name, procs, subs=("s1",), cap=2, switches=None, invarian
     with open(cfg, "w") as f:
         f.write("\n".join(lines) + "\n")
     meta = os.path.join(workdir, "tlc-meta-%s-%d" % (name, os.getpid()))
-    cmd = ["timeout", str(timeout), "java", "-XX:+UseParallelGC", "-Xss64m", "-DTLA-Library=" + SPEC,
+    cmd = ["timeout", str(timeout), "java", "-XX:+UseParallelGC", "-Xss64m", "-Xmx16g", "-DTLA-Library=" + SPEC,
            "-cp", TLA_JAR + ":/opt/veriftools/tla/CommunityModules-deps.jar", "tlc2.TLC",
            "-workers", str(workers), "-metadir", meta, "-cleanup", "-noGenerateSpecTE",
            "-config", cfg, os.path.join(workdir, mod + ".tla")]
